@@ -40,6 +40,59 @@ func c12R6(c *Ctx) {
 	pos := P.Pos(fn.Pos())
 	param := ssa.Value(fn.Params[0])
 
+	// the label functions print the number on every path: what style.Link and
+	// style.LinkBlock return always contains superscript(number) of their own
+	// number — a link whose text is empty still uses up a number (seed C12-1r9:
+	// `if text == "" { return "" }` makes the shown numbers skip one)
+	for _, lname := range []string{"Link", "LinkBlock"} {
+		lf := P.FuncOpt("servitor/style", lname)
+		if lf == nil || len(lf.Params) < 2 {
+			continue
+		}
+		num := ssa.Value(lf.Params[len(lf.Params)-1])
+		var has func(v ssa.Value, d int) bool
+		has = func(v ssa.Value, d int) bool {
+			if d > 8 {
+				return false
+			}
+			v = stripStringConv(unwrapLoad(v))
+			switch x := v.(type) {
+			case *ssa.BinOp:
+				return x.Op == token.ADD && (has(x.X, d+1) || has(x.Y, d+1))
+			case *ssa.Phi:
+				for _, e := range x.Edges {
+					if !has(e, d+1) {
+						return false
+					}
+				}
+				return len(x.Edges) > 0
+			case *ssa.Call:
+				sc := x.Call.StaticCallee()
+				if sc == nil {
+					return false
+				}
+				if sc == fn {
+					return unwrapLoad(x.Call.Args[0]) == num
+				}
+				if (sc.Name() == "Link" || sc.Name() == "LinkBlock") && P.PkgOf(sc) == "servitor/style" {
+					return unwrapLoad(x.Call.Args[len(x.Call.Args)-1]) == num
+				}
+				// functions of the style layer keep every character of their text argument
+				if inStyleLayer(sc) && len(x.Call.Args) > 0 && isStringType(x.Call.Args[0].Type()) {
+					return has(x.Call.Args[0], d+1)
+				}
+			}
+			return false
+		}
+		for _, b := range lf.Blocks {
+			ret, ok := b.Instrs[len(b.Instrs)-1].(*ssa.Return)
+			if !ok || len(ret.Results) != 1 {
+				continue
+			}
+			c.check(has(ret.Results[0], 0), FuncName(lf)+"/prints-number", P.InstrPos(ret), FuncName(lf), "the label contains superscript(number) on this return", "style."+lname+" can return a label that does not contain its number: the link still takes a number, so the numbers shown skip one and the target can be opened by a number that is labelled nowhere")
+		}
+	}
+
 	isDecimal := func(v ssa.Value) bool {
 		call, ok := unwrapLoad(v).(*ssa.Call)
 		if !ok {
